@@ -659,6 +659,11 @@ func Build(spec *EpochSpec) (ep *Epoch, err error) {
 	case 3:
 		// identity multihash: the root CID inlines the Epoch node (two subsets, the first addressed by a sha2-512 CID), which makes the
 		// CAR header longer than 127 bytes, i.e. its length prefix two bytes wide
+		if len(subsetLinks) != 2 {
+			// with more subsets (bulk epochs) the inlined Epoch node would not fit into the index file names
+			root = cidOf(enc)
+			break
+		}
 		sum, e := mh.Sum(enc, mh.IDENTITY, -1)
 		if e != nil {
 			panic(e)
